@@ -336,7 +336,9 @@ func runDecodeStore(c *core.Ctx) []core.Obligation {
 						}
 						return false
 					})
-					if dependsOn(e.ifi.Cond, func(x ssa.Value) bool { return roots[x] && !strings.HasSuffix(x.Type().String(), "error") && x.Type().String() != "int" }) {
+					if dependsOn(e.ifi.Cond, func(x ssa.Value) bool {
+						return roots[x] && !strings.HasSuffix(x.Type().String(), "error") && x.Type().String() != "int"
+					}) {
 						valueDep = true
 					}
 				}
